@@ -5,6 +5,7 @@ import ast
 
 from ..astutil import dotted, is_const, is_none, norm, strip_docstring, walk_body
 from ..dtree import decision_tree
+from ..finite import k_eq, k_is, k_none
 from ..report import Checker
 from ..srcmodel import Func, Unsupported
 from . import templates_rules as T
@@ -92,7 +93,7 @@ def r_dispatch(ck: Checker, f: Func, rule: str = "R-DISPATCH") -> None:
                     ok = False
                     break
                 mv = norm(g[0].targets[0])
-                key = f"is(None,{mv})"
+                key = k_none(mv)
                 if key not in il.assign:
                     ok = False
                     break
@@ -145,7 +146,7 @@ def r_transform_path(ck: Checker, f: Func, visit_name: str = "visit", rule: str 
     leaves = decision_tree(lp.body, max_atoms=8)
     changes = marked = None
     bad = []
-    k_idx = f"is(None,{index})"
+    k_idx = k_none(index)
     for lf in leaves:
         a = lf.assign
         if lf.outcome not in ("fall", "continue"):
@@ -157,9 +158,9 @@ def r_transform_path(ck: Checker, f: Func, visit_name: str = "visit", rule: str 
             bad.append(f"{a}: the child is not visited exactly once")
             continue
         nc = norm(visits[0].targets[0])
-        k_none = f"is(None,{nc})"
+        k_gone = k_none(nc)
         k_same = "is(" + ",".join(sorted((child, nc))) + ")"
-        unknown = {k for k in a if k not in (k_idx, k_none, k_same) and not k.startswith("in(")}
+        unknown = {k for k in a if k not in (k_idx, k_gone, k_same) and not k.startswith("in(")}
         if unknown:
             eqs = [k for k in unknown if k.startswith("eq(")]
             bad.append(f"path decides on {sorted(unknown)}" + (" (a content-equal replacement is still a change: identity required)" if eqs else ""))
@@ -176,7 +177,7 @@ def r_transform_path(ck: Checker, f: Func, visit_name: str = "visit", rule: str 
             bad.append(f"{a}: does not distinguish sequence elements from single children")
             continue
         in_seq = not a[k_idx]
-        removed = a.get(k_none)
+        removed = a.get(k_gone)
         same = a.get(k_same)
         if in_seq:
             if removed is None:
